@@ -344,7 +344,7 @@ def _run(ctx, work):
     add(r2.printed)
     n_ext = len(r2.printed)
     r3 = tlc.run_tlc('MC_Rewrite', MC_CFG % (12, 10, 4, 4, 4, 'TRUE', '', 'INVARIANT Report'), env={'CASES': cpath}, workers=1,
-                     simulate=ctx.pick(len(built) * 3, len(built) * 60), depth=13, seed=ctx.seed, timeout=3000, heap='6g')
+                     simulate=ctx.pick(len(built) * 3, len(built) * 10), depth=13, seed=ctx.seed, timeout=3000, heap='6g')
     if r3.error or r3.invariant:
         raise Machinery('MC_Rewrite walks: %s %s' % (r3.invariant, (r3.error or '')[:800]))
     # (TLC evaluates the invariants on every candidate successor: each walk yields many end surfaces; a sample is compiled)
